@@ -441,7 +441,7 @@ def replay_queries(shape, cards):
 
 
 def conditions(tier, seed):
-    N = 4 if tier == 'quick' else 5
+    N = 4 if tier == 'quick' else 6
     conds = []
     imp = 'from fmverif.props import c03 as P\n'
     conds.append(Cond(
@@ -508,7 +508,7 @@ def info(tier):
                                   'Feature.get_children/get_parent/get_relations/is_root/is_leaf/is_mandatory/is_optional/'
                                   'is_*_group/is_group/is_multiple_group_decomposition/is_boolean/is_numerical/is_string/is_multifeature',
                                   'FeatureModel.get_features/get_relations/get_feature_by_name/get_*_features/get_*_constraints'],
-            'bounds': {'shapes': 'all with <= %d features' % (4 if tier == 'quick' else 5), 'cards': '0<=min<=max<=k symbolic',
+            'bounds': {'shapes': 'all with <= %d features' % (4 if tier == 'quick' else 6), 'cards': '0<=min<=max<=k symbolic',
                        'name_len': 2 if tier == 'quick' else 3, 'partition': 'unbounded'},
             'stubs': [],
             'engines': ['E1 crosshair', 'E3 py2smt on Relation.is_* source (z3 + cvc5)', 'native validation sweep'],
